@@ -379,6 +379,21 @@ pub fn index_torn_by_power_loss(opts: &StoreOpts, power_loss: bool, v: &Violatio
 		&& (v.detail.contains("B+ tree error") || v.detail.contains("src/bplustree/") || (v.detail.contains("out of range for slice of length 0") && v.detail.contains("/repo/src/lib.rs:")))
 }
 
+/// F9, process-crash form: the crash point lies in the MIDDLE of an in-place update of the
+/// version index - the operation before it is a page write of the index file (page-sized,
+/// page-aligned: only the B+tree writes like that) and so is the one after it - and the
+/// failure comes out of the B+tree code. (A root or leaf split writes several pages and the
+/// header; a crash between them leaves a header that points at a page not written yet.)
+pub fn index_update_interrupted(opts: &StoreOpts, ops: &[Op], n: usize, v: &Violation) -> bool {
+	let page_write = |o: Option<&Op>| matches!(o, Some(Op::Write { off, data, .. }) if off % 4096 == 0 && data.len() == 4096);
+	opts.versioned_index
+		&& n >= 1
+		&& page_write(ops.get(n - 1))
+		&& (page_write(ops.get(n)) || matches!(ops.get(n), Some(Op::Fsync { .. })))
+		&& matches!(v.class.as_str(), "panic" | "open_failed" | "read_error" | "reopen_failed" | "recover_failed")
+		&& (v.detail.contains("B+ tree error") || v.detail.contains("src/bplustree/") || (v.detail.contains("out of range for slice of length 0") && v.detail.contains("/repo/src/lib.rs:")))
+}
+
 /// C07 legs on a successfully recovered store: commit to existing keys must be newest
 /// (now, after flush, after reopen); reopening again yields the same contents.
 async fn deep_checks(tree: &surrealkv::Tree, opts: &StoreOpts, dir: &Path, got: &BTreeMap<Key, Val>, keys: &[Key], no_flush_leg: bool, seed: u64) -> Option<Violation> {
